@@ -135,6 +135,10 @@ def work(ctx):
                          "(ser_list (ser_list (ser_instr ser_const)) (blocks_of_view (map_view normalize_const (dis_view cfg (co_code code) (co_names code) "
                          "(co_varnames code) (co_freevars code) (co_cellvars code) ks (raw_entries (co_linetable code)) (co_firstlineno code)))))) "
                          "| Err _ => [2] end | Err _ => [3] end)" % E.g_pycode(k), [1, 1], "nz_of_view on %s" % what, "wf-monitor")
+                # premises and conclusion of the code-round-trip stability theorem on this object (one level)
+                ctx.case("(let code := %s in match mapM (to_const cfg) (co_consts code) with OK ks => ser_bool (cfg_flags_ok cfg) ++ "
+                         "ser_bool (roundtrip_check cfg code ks) | Err _ => [3] end)" % E.g_pycode(k), [1, 1],
+                         "cfg_flags_ok and code round trip of the normal form of %s" % what, "wf-monitor")
                 ncases += 1
             except E.Unsupported:
                 pass
